@@ -67,6 +67,10 @@ def body(ck, F, cfg):
 
     ck.require(has_guard(pv.I, "prove_and_return_transcript", cap, N), "R01.3", "prover:padded-size", f"prover must size the proof by N = next_power_of_two(final gate count) = {N}")
     ck.require(has_guard(A["I"], "verification_scalars", cap, N), "R01.3", "verifier:padded-size", f"verifier must size the proof by N = next_power_of_two(final gate count) = {N}")
+    # R01.6: the verifier's identity rejection applies only to points that are never the identity for an honest prover
+    guarded, plain = AN.validated_sets(AN.verify_full(F)["I"])
+    may_be_identity = {"pf.A_I2", "pf.A_O2", "pf.S2"}
+    ck.require(not (guarded & may_be_identity), "R01.6", "no-honest-value-rejected", f"the verifier rejects identity for {sorted(guarded & may_be_identity)}, which the honest prover sends as identity when the randomized phase adds no gate", "src/r1cs/verifier.rs")
     # R01.4: identical handles/gate counts on both roles (C16) and capacity guards (C17) are prerequisites of completeness
     from . import C16, C17
 
